@@ -155,7 +155,8 @@ StakeVariants == \/ /\ "slippage" \in Extras
                     /\ \E u \in Users, a \in StakeAmts, o \in (Users \cup {"c1", "u1"}) : o # u /\ Do(StakeCallX(u, a, "other", << >>, NoAmt, o))
 Unstake      == \E u \in Users, a \in UnstakeAmts : Bal(w.bank, u, LstD) >= a /\ Do(UnstakeCall(u, a))
 Submit       == \E u \in Principals : Do(SubmitCall(u))
-Withdraw_    == \E u \in Users, b \in BatchIds(w.c) : Do(WithdrawCall(u, b))
+\* (also for a batch id that does not exist)
+Withdraw_    == \E u \in Users, b \in BatchIds(w.c) \cup {Len(w.c.batches) + 1} : Do(WithdrawCall(u, b))
 Rewards      == \E a \in RewardAmts : Do(RewardsCall(a, Collector))
 ReturnBatch  == \E b \in Outstanding(w), k \in Returns :
                   LET e == w.c.batches[b].expected
@@ -175,6 +176,18 @@ WrongSender  == "wrongsender" \in Extras /\
 Direct       == "direct" \in Extras /\ \E u \in Principals :
                   \/ Do([m |-> "receive_rewards", s |-> u, funds |-> << >>])
                   \/ \E b \in BatchIds(w.c) : Do([m |-> "receive_unstaked_tokens", s |-> u, b |-> b, funds |-> << >>])
+\* wrong payments: staking with the LST, unstaking with the staked asset, two coins at once, no coin at all; a
+\* delivery for a batch id that does not exist; recovery towards something that is not a native-chain address
+BadInputs    == "badinputs" \in Extras /\
+                  \/ \E u \in Users : Bal(w.bank, u, LstD) >= 1 /\ Do([StakeCall(u, 1, "self", << >>) EXCEPT !.funds = <<<<LstD, 1>>>>])
+                  \/ \E u \in Users : Bal(w.bank, u, NatD) >= 1 /\ Do([UnstakeCall(u, 1) EXCEPT !.funds = <<<<NatD, 1>>>>])
+                  \/ \E u \in Users : Bal(w.bank, u, LstD) >= 1 /\ Bal(w.bank, u, NatD) >= 3 /\
+                        Do([StakeCall(u, 3, "self", << >>) EXCEPT !.funds = <<<<NatD, 3>>, <<LstD, 1>>>>])
+                  \/ \E u \in Users : Do([StakeCall(u, 3, "self", << >>) EXCEPT !.funds = << >>])
+                  \/ \E u \in Users : Do([UnstakeCall(u, 1) EXCEPT !.funds = << >>])
+                  \/ Do([UnstakedCall(Len(w.c.batches) + 1, 2, Staker) EXCEPT !.limited = FALSE])
+                  \/ \E u \in Principals : (\E p \in w.c.pk : Refundable(p)) /\
+                        Do([RecoverCall(u, "osmo1bad", << >>) EXCEPT !.rvalid = FALSE])
 \* callbacks that do not belong to a packet in flight: another channel (even for a tracked sequence), an unknown sequence
 Stray_       == "stray" \in Extras /\ \E k \in {"ok", "err", "timeout"} :
                   \/ \E p \in w.c.pk : Do([m |-> "stray", channel |-> "channel-9", seq |-> p.seq, kind |-> k])
@@ -227,7 +240,7 @@ Resume       == AdminOps /\ w.c.stopped /\ \E u \in Principals, k \in ResumeScal
                      /\ Do(ResumeCall(u, n, l, w.c.rewards))
 Tick         == \E t \in TimePoints : Do(TimeCall(t))
 
-Next == Stake \/ StakeVariants \/ Unstake \/ Submit \/ Withdraw_ \/ Rewards \/ ReturnBatch \/ WrongSender \/ Direct \/ TopUp
+Next == Stake \/ StakeVariants \/ BadInputs \/ Unstake \/ Submit \/ Withdraw_ \/ Rewards \/ ReturnBatch \/ WrongSender \/ Direct \/ TopUp
         \/ Relay \/ Stray_ \/ Recover_ \/ Forced \/ FeeWithdraw_ \/ Breaker \/ Resume \/ Matrix \/ Toggle \/ TSpend \/ Rechannel \/ NewCounter \/ Tick
 
 Spec == Init /\ [][Next]_vars
